@@ -3,7 +3,7 @@ CONSTANTS
   FailKinds <- MCFail
   TargetOf <- MCTarget
   MaxHist = 3
-  Deviation = "hash_order"
+  Deviation = "leak_in_build"
 SPECIFICATION Spec
 INVARIANT HistoryIndependent
 CHECK_DEADLOCK FALSE
